@@ -27,6 +27,9 @@ type Workload struct {
 	sporkDone map[types.Hash]bool
 	// OnAccepted is called for every accepted client block
 	OnAccepted func(b *nom.AccountBlock)
+	// Huge adds, per Ops call, issuances of tokens with boundary supplies and calls moving amounts of
+	// 2^63 and more (refund, burn, stake, donate, transfer)
+	Huge bool
 }
 
 func NewWorkload(w *World, mode SporkMode) *Workload {
@@ -43,6 +46,16 @@ func (wl *Workload) Ops(n *simnode.Node) int {
 			acc++
 		}
 	})
+	if wl.Huge {
+		if t.Choose(4) == 0 {
+			FlowByName("issue-token").Run(wl.G, n)
+		}
+		t.Loop(1, 2, 3, func() {
+			if FlowByName("huge-amount-call").Run(wl.G, n) != nil {
+				acc++
+			}
+		})
+	}
 	return acc
 }
 
